@@ -10,7 +10,7 @@ from sa.selftest import Mutant, Silent
 from sa.source import AnalysisError, class_assigns
 from sa.props._lib_e import (Unknown, assigns_self, call_in, calls_named, catches, check_hex_validators, check_name_encoder, check_token_validator, falsy_until_exit,
                              handlers_of, http_interp, is_const, is_falsy_return, local_values, make_env, only_nodes_until_exit,
-                             ordered, resolve_local, self_attr, site_label, walk)
+                             ordered, resolve_local, risky_calls, self_attr, site_label, walk)
 
 PROPERTY = "C19"
 HTTP = "web/http.py"
@@ -105,8 +105,12 @@ def _request_line(ctx, I):
 # ------------------------------------------------------------------------------------------------------
 def _respond_sites(ctx, g, q, extra_ok=None):
     sites = calls_named(g, RESPOND, "self.channel._respondToBadRequestAndDisconnect")
+    def logging_ok(nd):
+        if nd.kind == "stmt" and isinstance(nd.ast, ast.Expr) and isinstance(nd.ast.value, ast.Call) and (call_name(nd.ast.value) or "").startswith("self._log."):
+            return True
+        return bool(extra_ok and extra_ok(nd))
     for n in sites:
-        wit = falsy_until_exit(g, n, extra_ok)
+        wit = falsy_until_exit(g, n, logging_ok)
         ctx.check(wit is None, "reject/stop-after-400", f"{q} | 400 {site_label(g, n)}",
                   "after answering 400 the function goes on (state is changed / the request proceeds / a true result is returned)",
                   witness=g.describe(wit))
@@ -623,6 +627,23 @@ def _identity_decoder(ctx):
     ctx.check(bool(g0), "body/finish-once", q + " | late delivery", "data delivered after the body finished is not refused")
 
 
+def _reject_paths(ctx):
+    """Exception escape on the reject paths: handler bodies and the rejecting helpers contain no operation that can
+    raise on untrusted bytes before / instead of the 400."""
+    n = 0
+    for name in ("lineReceived", "headerReceived", "rawDataReceived", "_maybeChooseTransferDecoder", "_failChooseTransferDecoder", "_respondToBadRequestAndDisconnect"):
+        f = ctx.func(HTTP, "HTTPChannel." + name)
+        regions = [st for h in ast.walk(f) if isinstance(h, ast.ExceptHandler) for st in h.body]
+        if name in ("_failChooseTransferDecoder", "_respondToBadRequestAndDisconnect"):
+            regions += list(f.body)
+        for st in regions:
+            n += 1
+            bad = risky_calls(st)
+            ctx.check(not bad, "reject/reject-path-cannot-raise", ctx.construct(QC + name, st),
+                      (f"on the reject path {src(bad[0])} can raise for untrusted bytes: the exception escapes dataReceived instead of the 400 being sent") if bad else "")
+    ctx.floor("reject/reject-path-cannot-raise", n, 6)
+
+
 def _content_reset(ctx):
     f = ctx.func(HTTP, "HTTPChannel.allContentReceived")
     g = ctx.cfg(f)
@@ -650,7 +671,7 @@ def check(ctx):
                      ("lineReceived", lambda: _line_received(ctx, I)), ("headerReceived", lambda: _header_received(ctx, I)),
                      ("framing decision", lambda: _choose_decoder(ctx, I)), ("400 response", lambda: _respond(ctx)),
                      ("raw data", lambda: _raw_data(ctx, I)), ("identity decoder", lambda: _identity_decoder(ctx)),
-                     ("state reset", lambda: _content_reset(ctx))):
+                     ("state reset", lambda: _content_reset(ctx)), ("reject paths", lambda: _reject_paths(ctx))):
         with ctx.section(name):
             fn()
 
@@ -712,6 +733,9 @@ MUTANTS = [
     Mutant("header-rejected-but-reported-valid", HTTP, "        if not self._maybeChooseTransferDecoder(header, data):\n            return False", "        if not self._maybeChooseTransferDecoder(header, data):\n            return True",
            expect_rule="reject/result-used"),
     Mutant("token-first-byte-only", ABNF, "    for c in b:\n        if c not in (\n", "    for c in b[:1]:\n        if c not in (\n", expect_rule="byte-class/exact"),
+    Mutant("invalid-name-logged-with-strict-decode", HTTP, "        except InvalidHeaderName:\n            self._respondToBadRequestAndDisconnect()\n            return False",
+           "        except InvalidHeaderName:\n            self._log.info(\"bad header name {n}\", n=header.decode(\"ascii\"))\n            self._respondToBadRequestAndDisconnect()\n            return False",
+           expect_rule="reject/reject-path-cannot-raise"),
     Mutant("name-cache-before-validation", HDRS, "        if not _istoken(bytes_name):\n            raise InvalidHeaderName(bytes_name)\n\n        result =",
            "        result =", expect_rule="header-name/"),
 ]
@@ -721,6 +745,8 @@ SILENT = [
     Silent('token-frozenset-all', ABNF, '    for c in b:\n        if c not in (\n            b"ABCDEFGHIJKLMNOPQRSTUVWXYZabcdefghijklmnopqrstuvwxyz"  # ALPHA\n            b"0123456789"  # DIGIT\n            b"!#$%&\'*+-.^_`|~"\n        ):\n            return False\n    return b != b""\n', '    return b != b"" and all(c in _TCHARS for c in b)\n', more=[(ABNF, '"""\n\n\ndef _istoken', '"""\n\n_TCHARS = frozenset(b"ABCDEFGHIJKLMNOPQRSTUVWXYZabcdefghijklmnopqrstuvwxyz0123456789!#$%&\'*+-.^_`|~")\n\n\ndef _istoken')]),
     Silent('hexdigits-regex-fullmatch', ABNF, '    for c in b:\n        if c not in b"0123456789abcdefABCDEF":\n            return False\n    return b != b""\n', '    return _HEX_RE.fullmatch(b) is not None\n', more=[(ABNF, '"""\n\n\ndef _istoken', '"""\n\nimport re\n\n_HEX_RE = re.compile(rb"[0-9a-fA-F]+")\n\n\ndef _istoken')]),
     Silent('name-cached-by-helper-after-validation', HDRS, '        if not _istoken(bytes_name):\n            raise InvalidHeaderName(bytes_name)\n\n        result = b"-".join([word.capitalize() for word in bytes_name.split(b"-")])\n', '        if not _istoken(bytes_name):\n            raise InvalidHeaderName(bytes_name)\n        return self._remember(name, bytes_name)\n\n    def _remember(self, name, bytes_name):\n        result = b"-".join([word.capitalize() for word in bytes_name.split(b"-")])\n'),
+    Silent("invalid-name-logged-with-repr", HTTP, "        except InvalidHeaderName:\n            self._respondToBadRequestAndDisconnect()\n            return False",
+           "        except InvalidHeaderName:\n            self._respondToBadRequestAndDisconnect()\n            self._log.info(\"bad header name {n!r}\", n=header)\n            return False", allow_error=False),
     Silent("target-bounds-rewritten", HTTP, "if c <= 32 or c > 126:", "if c < 33 or c >= 127:"),
     Silent("target-lower-bound-space-unreachable", HTTP, "if c <= 32 or c > 126:", "if c < 32 or c > 126:"),
     Silent("version-membership", HTTP, "if version != b\"HTTP/1.1\" and version != b\"HTTP/1.0\":", "if version not in (b\"HTTP/1.1\", b\"HTTP/1.0\"):"),
